@@ -1,7 +1,6 @@
 package props
 
 import (
-	"sync"
 	"bytes"
 	"context"
 	"fmt"
@@ -10,6 +9,7 @@ import (
 	"path/filepath"
 	"sort"
 	"strings"
+	"sync"
 	"syscall"
 	"time"
 
